@@ -55,7 +55,7 @@ impl Scenario {
             family,
             bounds: None,
             max_branches: 5_000,
-            max_duration_s: (40, 560),
+            max_duration_s: (120, 560),
             config: Json::obj(),
         }
     }
